@@ -359,6 +359,8 @@ def h_run(ctx, shape, modes, tdef=None, hidden_init=None, steps=2):
             ctx.check(not raised, f"apply:{name}:rejected-applicable", f"step {k}: {name}{args} is applicable in the twin, the environment raised UPUsageError")
             ts = ts1
             ctx.witness("applied")
+        ctx.check(ee._state is not None, f"apply:{name}:state-lost",
+                  f"step {k}: after {name}{args} ({'refused' if raised else 'applied'}) the environment has no current state")
         for atom in c.atoms:
             got, want = _pyval(ee._state.get_value(c.fexp(atom))), _pyval(ts.get_value(t.fexp(atom)))
             ctx.check(type(got) is type(want) and got == want, f"apply:{name}:state",
